@@ -243,6 +243,7 @@ def run_edit(case):
     """One scenario: evaluate every node, edit the tree through the public interface, evaluate again.
     kind 'replace' : a sub-tree at depth >= 2 is replaced through the parent's left/right setter (GP mutation/crossover);
     kind 'inplace' : a terminal's array is rewritten in place, t.value[:] = ... (TreeSpace._initialize_terminals);
+    kind 'retype'  : a terminal node is re-typed to FUNCTION, renamed and given children (in-place grow / point mutation);
     on_copy        : the edit is made on a copy.deepcopy of the tree; the tree that is not edited must keep its value."""
     shape = tuple(case['shape'])
     terms = dec_terms(case['terms'])
@@ -262,6 +263,17 @@ def run_edit(case):
             parent.right = new
             new.flag = False
         new.parent = parent
+    elif case['kind'] == 'retype':
+        # a node built as a TERMINAL (with its array) is turned into a function node through the public setters
+        t = node_at(target, path)
+        new = build(case['new_spec'], dec_terms(case['new_terms']))
+        t.type = 'FUNCTION'
+        t.name = case['new_spec'][1]
+        t.left = new.left
+        new.left.parent = t
+        if new.right is not None:
+            t.right = new.right
+            new.right.parent = t
     else:
         t = node_at(target, path)
         t.value[:] = np.array([[unkey(k) for k in row] for row in case['new_values']], dtype=float)
@@ -278,19 +290,64 @@ def run_edit(case):
     return None
 
 
+def run_history(case):
+    """Evaluations must not depend on what was evaluated before in the same process.
+    kind 'same-bytes-other-shape' : the tree is evaluated over (a, b) arrays, then the same tree over the same numbers
+                                    laid out as (b, a) arrays (identical bytes) -- the second result has shape (b, a);
+    kind 'caller-writes-result'   : the array returned by .position of a function-rooted tree is overwritten in place
+                                    by the caller (as a clip / scaling would); evaluating again gives the tree's value."""
+    shape = tuple(case['shape'])
+    terms = dec_terms(case['terms'])
+    root = build(case['spec'], terms)
+    msg = check_graph(root, shape)
+    if msg:
+        return 'history (first evaluation): ' + msg
+    if case['kind'] == 'same-bytes-other-shape':
+        shape2 = (shape[1], shape[0])
+        terms2 = [np.array(t, copy=True).reshape(shape2) for t in dec_terms(case['terms'])]
+        msg = check_graph(build(case['spec'], terms2), shape2)
+        if msg:
+            return 'history (same numbers as %s arrays after %s arrays): %s' % (shape2, shape, msg)
+        msg = check_graph(root, shape)
+    else:
+        for _ in range(2):
+            p = root.position
+            if root.type == 'FUNCTION':
+                p[...] = 7.25
+            msg = check_graph(root, shape)
+            if msg:
+                break
+    return ('history (%s): %s' % (case['kind'], msg)) if msg else None
+
+
+def history_cases(r, n_terms):
+    out = []
+    n = 24 if hlib.QUICK else 600
+    k = 0
+    while len(out) < n:
+        k += 1
+        spec = ['U', UNARY[k % len(UNARY)], ['T', 0]] if k % 3 == 0 else random_spec(r, r.choice([1, 2, 3]), n_terms, p_leaf=0.05)
+        if spec[0] == 'T':
+            continue
+        shape = r.choice([(3, 1), (1, 4), (2, 3), (4, 2)])
+        out.append({'kind': ['same-bytes-other-shape', 'caller-writes-result'][len(out) % 2], 'spec': spec, 'shape': list(shape),
+                    'terms': enc_terms(terminal_sets(r, shape, n_terms, 'moderate'))})
+    return out
+
+
 def edit_cases(r, n_terms):
     out = []
     n = 20 if hlib.QUICK else 500
     tries = 0
-    while len(out) < 3 * n and tries < 40 * n:
+    while len(out) < 4 * n and tries < 40 * n:
         tries += 1
         spec = random_spec(r, r.choice([2, 3, 3, 4]), n_terms, p_leaf=0.1)
         if spec_depth(spec) < 2:
             continue
         shape = r.choice(DIMS)
         terms = terminal_sets(r, shape, n_terms, 'moderate')
-        kind = ['replace', 'inplace', r.choice(['replace', 'inplace'])][len(out) % 3]
-        on_copy = len(out) % 3 == 2
+        kind = ['replace', 'inplace', r.choice(['replace', 'inplace']), 'retype'][len(out) % 4]
+        on_copy = len(out) % 4 == 2 or (kind == 'retype' and len(out) % 8 == 7)
         ps = paths(spec)
         if kind == 'replace':
             cand = [p for p, s in ps if len(p) >= 2]
@@ -298,6 +355,17 @@ def edit_cases(r, n_terms):
                 continue
             path = r.choice(cand)
             case = {'kind': kind, 'on_copy': on_copy, 'path': path, 'new_spec': random_spec(r, 1, n_terms),
+                    'new_terms': enc_terms(terminal_sets(r, shape, n_terms, 'moderate'))}
+        elif kind == 'retype':
+            cand = [p for p, s in ps if s[0] == 'T' and len(p) >= 1]
+            if not cand:
+                continue
+            path = r.choice(cand)
+            new_spec = random_spec(r, 1, n_terms, p_leaf=0.0)
+            if new_spec[0] == 'U2':
+                new_spec[0] = 'U'
+                new_spec = new_spec[:3]
+            case = {'kind': kind, 'on_copy': on_copy, 'path': path, 'new_spec': new_spec,
                     'new_terms': enc_terms(terminal_sets(r, shape, n_terms, 'moderate'))}
         else:
             cand = [p for p, s in ps if s[0] == 'T' and len(p) >= 2]
@@ -403,6 +471,16 @@ def main():
             if 'node:stale-after-edit' not in [f['key'] for f in res['fails']]:
                 res['fails'].append({'key': 'node:stale-after-edit', 'msg': msg, 'spec': case['spec'], 'shape': case['shape'],
                                      'terms': case['terms'], 'edit': case})
+    for case in history_cases(r, n_terms):
+        msg = run_history(case)
+        res['edit_cases'] += 1
+        k = 'history/%s' % case['kind']
+        res['dist'][k] = res['dist'].get(k, 0) + 1
+        if msg:
+            res['n_failing_cases'] = res.get('n_failing_cases', 0) + 1
+            if 'node:history' not in [f['key'] for f in res['fails']]:
+                res['fails'].append({'key': 'node:history', 'msg': msg, 'spec': case['spec'], 'shape': case['shape'],
+                                     'terms': case['terms'], 'history': case})
     # moderate-magnitude scalar cases so that every operator is represented in the Coq sample
     for name in UNARY + BINARY:
         for _ in range(6 if hlib.QUICK else 60):
